@@ -188,7 +188,10 @@ impl Axecutor {
                         segment.p_offset,
                     );
 
-                    let memsz = round_up_to_page_size(segment.p_memsz);
+                    // The area ends at the end of the segment's last page, so that a segment with an
+                    // unaligned start address doesn't spill into the page after it
+                    let memsz = round_up_to_page_size(segment.p_vaddr + segment.p_memsz)
+                        - segment.p_vaddr;
 
                     if memsz == segment.p_filesz {
                         axecutor.mem_init_area_named(
